@@ -135,7 +135,7 @@ func nOf(q, t int) func(string) int {
 // Required coverage: every operation × direction, object type, key format, standard attribute.
 func required() []string {
 	req := []string{"messages", "cov.ext-after-payload:req", "cov.ext-after-payload:resp", "cov.keyvalue:wrapped", "cov.keyvalue:absent", "cov.attr:custom", "cov.op:unknown",
-		"cov.credential:0", "cov.credential:1", "cov.credential:2", "negative_bigints"}
+		"cov.credential:0", "cov.credential:1", "cov.credential:2", "negative_bigints", "cov.message-and-async-value", "cov.ext-without-payload:resp"}
 	for _, o := range gen.Ops {
 		req = append(req, "cov.op:"+o.Name+":req", "cov.op:"+o.Name+":resp")
 	}
